@@ -10,7 +10,7 @@ PROPERTY = 'C19'
 META = {
     'level': 'exploration',
     'technique': 'runtime monitor (set-arithmetic oracle) on every merge()/shatter() call over an exhaustively enumerated small domain plus seeded large range sets',
-    'text': 'Every call of the real merge()/shatter() made by the workload is judged by a set-arithmetic oracle over the requested '
+    'text': 'Registers are also requested while the poller runs: an ordinary poll() plus one issued from a one-shot hook right after the poller has iterated its address table; both must be polled within 4 cycles. Every call of the real merge()/shatter() made by the workload is judged by a set-arithmetic oracle over the requested '
             'address set (sorted, disjoint, <= limit, one 10000-block, superset of requested, nothing farther than reach). The small '
             'domain (<=3 ranges, windows at a bank start / across a 10000 boundary / around 40001, counts 1..4, reach 0..4, limit None/1..5) '
             'is enumerated completely, so every relation between ranges (nested, overlapping, adjacent, duplicate, disjoint) occurs; '
